@@ -253,13 +253,15 @@ def check_C15(tier):
 
 
 # ------------------------------------------------------------------ Buffer.tla (Level 2 mechanism)
-BUF_PROPS = dict(properties=["C05_Transparent", "C06_FlushWrites", "C07_NoSilentOverwrite", "C17_ReadOnlyNeverWritten"],
+BUF_PROPS = dict(properties=["C05_Transparent", "C06_FlushWrites", "C07_NoSilentOverwrite", "C07_OutsideChangeSurvives",
+                             "C17_ReadOnlyNeverWritten"],
                  invariants=["C06_BufferHoldsGold", "C15_EmptyOutside", "C15_WithinCapacity", "C15_CapacityRestored"])
 BUF_FLAGS = ("Dev_SerializedOwnData", "Dev_MemFlushOwnData", "Dev_MemStoreNotFollow", "Dev_CapNotRestoredOnError",
-             "Dev_LoseRegOnError")
+             "Dev_LoseRegOnError", "Dev_MemKeepConflictingCopy")
 # flag -> (strategy, scenario) in which it has a short witness
 BUF_WITNESS = {"Dev_SerializedOwnData": ("serialized", "shared"), "Dev_MemFlushOwnData": ("memory", "shared"),
-               "Dev_MemStoreNotFollow": ("memory", "one"), "Dev_CapNotRestoredOnError": ("serialized", "one")}
+               "Dev_MemStoreNotFollow": ("memory", "one"), "Dev_CapNotRestoredOnError": ("serialized", "one"),
+               "Dev_MemKeepConflictingCopy": ("memory", "one")}
 
 
 def _buf_cfg(strategy, scen, maxhist, flags=(), keys='{"a", "b"}', only=None):
@@ -277,7 +279,8 @@ def _buf_cfg(strategy, scen, maxhist, flags=(), keys='{"a", "b"}', only=None):
 
 # flag -> (property it violates, steps of the shortest witness)
 BUF_WITNESS_PROP = {"Dev_SerializedOwnData": ("C06_FlushWrites", 4), "Dev_MemFlushOwnData": ("C06_FlushWrites", 4),
-                    "Dev_MemStoreNotFollow": ("C06_BufferHoldsGold", 3), "Dev_CapNotRestoredOnError": ("C15_CapacityRestored", 6)}
+                    "Dev_MemStoreNotFollow": ("C06_BufferHoldsGold", 3), "Dev_CapNotRestoredOnError": ("C15_CapacityRestored", 6),
+                    "Dev_MemKeepConflictingCopy": ("C07_OutsideChangeSurvives", 6)}
 
 
 def _witness_inputs(hist, strategy):
